@@ -314,6 +314,18 @@ class ScriptedClient:
     def delete(self, *a, **k):
         return self.op("delete", *a, **k)
 
+    # every other command name a wrapped client offers is retried the same way
+    def _named(name):
+        def f(self, *a, **k):
+            return self.op(name, *a, **k)
+        f.__name__ = name
+        return f
+
+    for _n in ("incr", "decr", "append", "prepend", "add", "replace", "touch", "cas", "get_many", "set_many",
+               "delete_many", "flush_all", "gets"):
+        locals()[_n] = _named(_n)
+    del _n, _named
+
 
 # ---------------------------------------------------------------- result
 class CallRec:
